@@ -207,6 +207,14 @@ Example C09_positional_entry_flip_witness :
 Proof. exact positional_entry_flip_witness. Qed.
 Print Assumptions C09_positional_entry_flip_witness.
 
+(* (b') and for the mixed layout: one positional entry + one key;value pair *)
+Example C09_positional_mixed_flip_witness :
+  parse_row rmAN [(S_ "m.a", S_ "n"); (S_ "m.n", S_ "5")] = Ok (VModel [(S_ "m", VModel [(S_ "a", VStr (S_ "n")); (S_ "n", VInt 5)])])
+  /\ parse_row rmAN [(S_ "m", S_ "n|n;5")] = Err EValue
+  /\ parse_row rmAN [(S_ "m", S_ "q|n;5")] = Ok (VModel [(S_ "m", VModel [(S_ "a", VStr (S_ "q")); (S_ "n", VInt 5)])]).
+Proof. exact positional_mixed_flip_witness. Qed.
+Print Assumptions C09_positional_mixed_flip_witness.
+
 (* (c) the short header `message_text` reads the RAW `type` cell: short = long only up to the
        exact text of that cell, not up to the stripping the `type` field itself enjoys *)
 Theorem C09_short_header_any_padding_refuted : ~ short_header_any_padding_full.
